@@ -18,7 +18,7 @@ def check_records(R, obs, name):
     return sorted(bad_all)
 
 
-IFSNAMES = ["unset", "default", "sp_comma", "comma", "one", "empty", "sp_u1", "comma_one"]
+IFSNAMES = ["unset", "default", "sp_comma", "comma", "one", "empty", "sp_u1", "comma_one", "sp_only"]
 
 
 def explain(rec, exp):
@@ -32,7 +32,7 @@ def explain(rec, exp):
 
 def run(R):
     R.rule = ("cases = (word, IFS setting, construction): every word up to MaxLen segments over 15 segment kinds "
-              "(7 characters x unquoted/quoted + empty quotes) x 8 IFS settings x 5 constructions (literal / parameter "
+              "(7 characters x unquoted/quoted + empty quotes) x 9 IFS settings x 5 constructions (literal / parameter "
               "expansion / digits out of an arithmetic expansion / default word of ${nosuch:-word} / behind ~/ with IFS characters in HOME); distinct_nontrivial = distinct words holding at least one unquoted delimiter candidate and one "
               "other segment")
     R.assumptions = ["the statement's reading that empty fields without quoted material are dropped (so fields are the maximal "
